@@ -85,6 +85,8 @@ def _fakes():
         def step(self):
             self.ordinal += 1
             self.events.append(("step", self.ordinal))
+            if self.rng_given is not None:
+                self.rng_given.random()  # a real model consumes its stream (a generator shared between calls would advance)
 
         def get_model_state(self):
             self.events.append(("record", self.ordinal))
